@@ -96,14 +96,50 @@ def strategy(cell, tier):
     return st.tuples(*parts).map(list)
 
 
-def _make(be, sa, rows, mom):
+DTYPES = {"f64": numpy.float64, "f32": numpy.float32, "i64": numpy.int64}
+
+
+def _dtype_of(cell):
+    """stored column type of the array backends: float64 mostly, float32 and int64 (typical ntuple / integer data) too"""
+    if cell["backend"] not in ("numpy", "awkward"):
+        return "f64"
+    return ("f64", "f32", "i64", "f64")[zlib.crc32(("dt" + cell["id"]).encode()) % 4]
+
+
+def _cast_rows(rows, sa, dt):
+    if dt == "f64":
+        return rows
+    out = []
+    names = R.coord_names(sa)
+    for r in rows:
+        if dt == "f32":
+            out.append(tuple(float(numpy.float32(x)) for x in r))
+        else:
+            q = []
+            for nm, x in zip(names, r):
+                k = int(round(float(x)))
+                if nm == "rho":
+                    k = max(1, abs(k))
+                elif nm == "theta":
+                    k = min(3, max(1, k))
+                elif nm == "phi":
+                    k = min(3, max(-3, k))
+                elif nm in ("x", "y") and k == 0:
+                    k = 1
+                q.append(k)
+            out.append(tuple(q))
+    return out
+
+
+def _make(be, sa, rows, mom, dt="f64"):
     if be == "object-mp":
         return [mpbackend.make(sa, r, mom, True) for r in rows]
     if be == "object-f64":
         return [mpbackend.make(sa, r, mom, False) for r in rows]
     if be == "numpy":
-        return build.np_array(sa, rows, mom)
-    return ak.unflatten(build.ak_flat(sa, rows, mom), [len(rows) - 1, 0, 1]) if len(rows) > 1 else build.ak_flat(sa, rows, mom)
+        return build.np_array(sa, rows, mom, dtype=DTYPES[dt])
+    f = build.ak_flat(sa, rows, mom, dtype=DTYPES[dt])
+    return ak.unflatten(f, [len(rows) - 1, 0, 1]) if len(rows) > 1 else f
 
 
 def _read(be, r):
@@ -137,13 +173,17 @@ def check_case(cell, bundle, ctx):
         subs.append(sub)
     if not subs:
         return
+    dt = _dtype_of(cell)
+    rows = _cast_rows(rows, sa, dt)
+    if dt != "f64":
+        tol = mpf("1e-5") if dt == "f32" else tol
     exact = [R.to_cartesian(sa, r) for r in rows]
 
     def fail(kind, msg):
         ctx.fail(kind, f"{cell['method']} on {variant} [{be}; {'momentum' if mom else 'generic'}]: {msg}", op=cell["method"],
                  variant=variant, backend=be)
 
-    vs = _make(be, sa, rows, mom)
+    vs = _make(be, sa, rows, mom, dt)
     groups = [(i, vs[i]) for i in range(len(rows))] if be.startswith("object") else [(None, vs)]
 
     for gi, v in groups:
